@@ -26,7 +26,7 @@ CONSTANTS
 (* Attr fields:
    origin   "app" (submitted by the local application, source dtn://node/app) or the peer that delivers it
    dst      a peer name (destination node dtn://p/x), "far" (no such neighbour), "app" (endpoint of the local agent),
-            "noagent" (an endpoint on this node nobody registered)
+            "noagent" (an endpoint on this node nobody registered), "bcast" (the DTLSR broadcast address)
    prev     peer named in the previous-node block, or "none"
    life     "long" | "short" (runs out at Advance)
    clockless  creation time zero + bundle age block
@@ -62,7 +62,7 @@ Init ==
   /\ up = {} /\ failing = {}
   /\ st = [b \in Cat |-> NoRec]
   /\ meta = [b \in Cat |-> NoMeta]
-  /\ own = {} /\ peerv = [p \in Peers |-> [d \in Peers \cup {"far"} |-> 0]]
+  /\ own = {} /\ peerv = [p \in Peers |-> [d \in Peers \cup {"far", "bcast"} |-> 0]]
   /\ nbr = {} /\ table = {}
   /\ idk = [g \in Groups |-> 0]
   /\ used = {} /\ late = FALSE /\ steps = 0 /\ hist = <<>>
@@ -93,7 +93,7 @@ Notify(w, b) ==
     [] Algo = "binary_spray" ->
          [w EXCEPT !.meta[b] = IF a.copies > 0
                                THEN [has |-> TRUE, copies |-> a.copies, sent |-> IF a.prev # "none" THEN {a.prev} ELSE {}]
-                               ELSE [has |-> TRUE, copies |-> Budget, sent |-> {}]]
+                               ELSE [has |-> TRUE, copies |-> Budget, sent |-> IF a.prev # "none" THEN {a.prev} ELSE {}]]
 
 Allowed(w, b) == Algo # "epidemic" \/ IsLocal(Attr[b].dst) \/ (w.up \ w.st[b].sent) # {}
 
@@ -104,14 +104,15 @@ Candidates(w, b) ==
     [] Algo = "binary_spray" -> IF w.meta[b].has /\ w.meta[b].copies >= 2 THEN w.up \ w.meta[b].sent ELSE {}
     [] Algo = "prophet" -> {p \in w.up \ w.st[b].sent :
                               peerv[p][Attr[b].dst] > (IF Attr[b].dst \in w.own THEN 2 ELSE 0)}
-    [] Algo = "dtlsr" -> IF Attr[b].dst \in table /\ Attr[b].dst \in w.up THEN {Attr[b].dst} ELSE {}
+    [] Algo = "dtlsr" -> IF Attr[b].dst = "bcast" THEN w.up \ w.st[b].sent     \* link-state broadcasts go once to every peer
+                         ELSE IF Attr[b].dst \in table /\ Attr[b].dst \in w.up THEN {Attr[b].dst} ELSE {}
 Min(a, c) == IF a < c THEN a ELSE c
 HowMany(w, b) ==
   CASE Algo = "spray" -> Min(w.meta[b].copies - 1, Cardinality(Candidates(w, b)))
     [] Algo = "binary_spray" -> Min(1, Cardinality(Candidates(w, b)))
     [] OTHER -> Cardinality(Candidates(w, b))
 Choices(w, b) == {s \in SUBSET Candidates(w, b) : Cardinality(s) = HowMany(w, b)}
-DeleteAfter(b) == Algo = "dtlsr"    \* unicast hand-over releases the bundle
+DeleteAfter(b) == Algo = "dtlsr" /\ Attr[b].dst # "bcast"    \* unicast hand-over releases the bundle
 
 (* memory update when the algorithm selected targets tg; announced = copies written into a binary-spray block *)
 Announced(w, b) == IF Algo = "binary_spray" THEN w.meta[b].copies \div 2 ELSE 0
@@ -120,7 +121,7 @@ Selected(w, b, tg) ==
     [] Algo = "spray" -> [w EXCEPT !.meta[b].sent = @ \cup tg, !.meta[b].copies = @ - Cardinality(tg)]
     [] Algo = "binary_spray" -> IF tg = {} THEN w
                                 ELSE [w EXCEPT !.meta[b].sent = @ \cup tg, !.meta[b].copies = @ - Announced(w, b)]
-    [] Algo = "dtlsr" -> w
+    [] Algo = "dtlsr" -> IF Attr[b].dst = "bcast" THEN [w EXCEPT !.st[b].sent = @ \cup tg] ELSE w
 Failed(w, b, p, ann) ==
   CASE Algo \in {"epidemic", "prophet", "dtlsr"} -> [w EXCEPT !.st[b].sent = @ \ {p}]
     [] Algo = "spray" -> IF w.meta[b].has THEN [w EXCEPT !.meta[b].sent = @ \ {p}, !.meta[b].copies = @ + 1] ELSE w
@@ -173,7 +174,8 @@ GoodPick(w, pick) == \A b \in PendingSet(w) : pick[b] \in Choices(w, b)
 -----------------------------------------------------------------------------
 Exp(w) == [stored |-> {b \in Cat : w.st[b].known}, pending |-> {b \in Cat : w.st[b].known /\ w.st[b].pending},
            sends |-> w.sends, delivered |-> w.delivered, reports |-> w.reports,
-           seq |-> [b \in {x \in Cat : w.st[x].known} |-> w.st[b].seq]]
+           seq |-> [b \in {x \in Cat : w.st[x].known} |-> w.st[b].seq],
+           copies |-> [b \in {x \in Cat : w.meta[x].has} |-> w.meta[b].copies]]
 
 Commit(w, rec) ==
   /\ st' = w.st /\ meta' = w.meta
@@ -187,10 +189,13 @@ Submit(b, tg) ==
   /\ Go("Submit") /\ Attr[b].origin = "app" /\ b \notin used
   /\ used' = used \cup {b}
   /\ LET g == Attr[b].tsg
-         w0 == [World EXCEPT !.st[b] = [known |-> TRUE, pending |-> FALSE, sent |-> {}, seq |-> idk[g]]]
+         \* the counter is volatile, the store is not: a number under which a bundle of this source and time is stored is skipped
+         taken == {st[x].seq : x \in {y \in Cat : st[y].known /\ Attr[y].origin = "app" /\ Attr[y].tsg = g /\ g # 0}}
+         sq == CHOOSE k \in idk[g]..(idk[g] + Cardinality(Cat)) : k \notin taken /\ \A j \in idk[g]..(k - 1) : j \in taken
+         w0 == [World EXCEPT !.st[b] = [known |-> TRUE, pending |-> FALSE, sent |-> {}, seq |-> sq]]
          w1 == Notify(w0, b)
      IN /\ tg \in Choices(w1, b)
-        /\ idk' = [idk EXCEPT ![g] = @ + 1]
+        /\ idk' = [idk EXCEPT ![g] = sq + 1]
         /\ Commit(Dispatch(w1, b, tg), [act |-> "Submit", b |-> b, tg |-> tg, choices |-> [x \in {b} |-> Choices(w1, b)]])
   /\ UNCHANGED <<up, failing, own, peerv, nbr, table, late>>
 
@@ -251,7 +256,7 @@ Advance ==
 Restart ==
   /\ Go("Restart")
   /\ up' = {} /\ own' = {} /\ nbr' = {} /\ table' = {}
-  /\ peerv' = [p \in Peers |-> [d \in Peers \cup {"far"} |-> 0]]
+  /\ peerv' = [p \in Peers |-> [d \in Peers \cup {"far", "bcast"} |-> 0]]
   /\ idk' = [g \in Groups |-> 0]
   /\ Commit([World EXCEPT !.meta = [b \in Cat |-> NoMeta]], [act |-> "Restart"])
   /\ UNCHANGED <<failing, used, late>>
@@ -276,7 +281,7 @@ Next ==
   \/ \E p \in Peers : \E pick \in [PendingSet(World) -> SUBSET Peers] : PeerUp(p, pick)
   \/ \E pick \in [PendingSet(World) -> SUBSET Peers] : RetryTick(pick)
   \/ CleanTick \/ Advance \/ Restart \/ Recompute
-  \/ \E p \in Peers, d \in Peers \cup {"far"}, v \in 0..3 : Vector(p, d, v)
+  \/ \E p \in Peers, d \in Peers \cup {"far", "bcast"}, v \in 0..3 : Vector(p, d, v)
 
 Spec == Init /\ [][Next]_vars
 
@@ -292,6 +297,10 @@ NoSilentLoss == \A b \in Cat : st[b].known /\ ~IsLocal(Attr[b].dst) => st[b].pen
 CopiesInRange == \A b \in Cat : meta[b].has => meta[b].copies >= 0 /\ meta[b].copies <= (IF Attr[b].copies > 0 THEN Attr[b].copies ELSE Budget)
 \* C18 (vanilla): copies kept + peers holding one = budget, for bundles originated here
 Conservation == Algo = "spray" => \A b \in Cat : (meta[b].has /\ Attr[b].origin = "app") => meta[b].copies + Cardinality(meta[b].sent) = Budget
+
+\* C14: bundles of one (source, time) group are stored under distinct sequence numbers
+DistinctIds == \A x, y \in Cat : (x # y /\ st[x].known /\ st[y].known /\ Attr[x].origin = "app" /\ Attr[y].origin = "app"
+                                    /\ Attr[x].tsg = Attr[y].tsg /\ Attr[x].tsg # 0) => st[x].seq # st[y].seq
 
 SView == <<up, failing, st, meta, own, peerv, nbr, table, idk, used, late, steps>>
 Emit == (EmitMode = "final" /\ steps = MaxSteps) => PrintT(<<"TRACE", ToJson(hist)>>)
